@@ -195,6 +195,7 @@ impl RK23 {
 
             // Check for underflow due to machine rounding (no progress is possible any more)
             if 0.1 * h.abs() <= x.abs() * Float::EPSILON {
+                #[cfg(ivp_verif)] crate::verif_trace::emit("dp_small", 1.0);
                 status = Status::StepSizeTooSmall;
                 break;
             }
@@ -202,6 +203,7 @@ impl RK23 {
             // Check for last step adjustment
             if (x + h - xend) * posneg > 0.0 {
                 h = xend - x;
+                #[cfg(ivp_verif)] crate::verif_trace::emit("dp_land", 1.0);
             }
 
             // Stage 2
@@ -243,6 +245,7 @@ impl RK23 {
                 // Step accepted
                 steps.total += 1;
                 steps.accepted += 1;
+                #[cfg(ivp_verif)] crate::verif_trace::emit("dp_acc", steps.accepted as f64);
 
                 // Update state
                 ye.copy_from_slice(&y);
@@ -309,6 +312,7 @@ impl RK23 {
             } else {
                 // Step rejected
                 steps.rejected += 1;
+                #[cfg(ivp_verif)] crate::verif_trace::emit("dp_rej", 1.0);
                 let factor = safety_factor * err.powf(error_exponent);
                 // A non-finite error norm must still shrink the step
                 // (`NaN.min(1.0).max(scale_min)` would leave it unchanged forever).
